@@ -31,7 +31,15 @@ def main():
                     reqs.append(d['request'])
         ctx['replay_requests'] = reqs
         print(f'replaying {len(reqs)} request(s) from {a.replay}')
-    rc = mod.run(res, ctx)
+    try:
+        rc = mod.run(res, ctx)
+    except Exception:
+        # an internal error must never look like a pass, and never like silence: the property is not shown to hold
+        import traceback
+        tb = traceback.format_exc()
+        print(tb, file=sys.stderr)
+        res.corr['model_disagreements'].append({'what': 'internal error of the check while evaluating responses (the property is not shown to hold)', 'traceback': tb[-3000:]})
+        rc = core.finish(res, getattr(mod, 'LEVEL', 'exploration'), {}, getattr(mod, 'ASSUMPTIONS', []), False)
     sys.exit(rc)
 
 
